@@ -68,27 +68,27 @@ type Hole struct {
 }
 
 type FuncContract struct {
-	Params    []string // parameter names the contract uses, bound by position
-	Name      string // "WriteBasicTypeList" or "(*SseBinChecksumService).Calc"
-	Pkg       string
-	Mode      string
-	Requires  []*Expr
-	Canon     []*Expr // round-trip domain contributed by a writer
-	Ensures   []*Expr // unconditional
-	Props     []string
-	Behaviors []*Behavior
-	Loops     map[int]*LoopSpec
-	CallGhost []CallGhost
-	Holes     []Hole
-	Assigns   []string
-	Fresh     []string
-	Reads     []string
-	Alloc     map[string]*Expr // "success","failure"
-	Pure      bool
-	Trusted   bool
-	Format    *Expr // the wire format term this primitive writes / reads (for layout extraction)
+	Params     []string // parameter names the contract uses, bound by position
+	Name       string   // "WriteBasicTypeList" or "(*SseBinChecksumService).Calc"
+	Pkg        string
+	Mode       string
+	Requires   []*Expr
+	Canon      []*Expr // round-trip domain contributed by a writer
+	Ensures    []*Expr // unconditional
+	Props      []string
+	Behaviors  []*Behavior
+	Loops      map[int]*LoopSpec
+	CallGhost  []CallGhost
+	Holes      []Hole
+	Assigns    []string
+	Fresh      []string
+	Reads      []string
+	Alloc      map[string]*Expr // "success","failure"
+	Pure       bool
+	Trusted    bool
+	Format     *Expr // the wire format term this primitive writes / reads (for layout extraction)
 	FormatKind string
-	Lines     []string
+	Lines      []string
 }
 
 type Lemma struct {
@@ -117,6 +117,7 @@ type LayoutPath struct {
 
 type DynSpec struct {
 	Field, Key, Table string
+	Fills             bool // the encoder creates the part from the key when the caller left it nil
 }
 
 type Layout struct {
@@ -588,11 +589,11 @@ func ParseContractFile(path string) (cf *ContractFile, err error) {
 		case ly != nil:
 			switch word {
 			case "dyn":
-				f := strings.Fields(rest) // dyn Field by Key in table
-				if len(f) != 5 {
-					panic(where + ": dyn <Field> by <Key> in <table>")
+				f := strings.Fields(rest) // dyn Field by Key in table [fills]
+				if len(f) != 5 && !(len(f) == 6 && f[5] == "fills") {
+					panic(where + ": dyn <Field> by <Key> in <table> [fills]")
 				}
-				ly.Dyns = append(ly.Dyns, DynSpec{Field: f[0], Key: f[2], Table: f[4]})
+				ly.Dyns = append(ly.Dyns, DynSpec{Field: f[0], Key: f[2], Table: f[4], Fills: len(f) == 6})
 			case "path":
 				ly.Paths = append(ly.Paths, &LayoutPath{Key: rest})
 			case "seg":
